@@ -8,6 +8,7 @@ import (
 	"runtime/debug"
 	"sort"
 	"strconv"
+	"strings"
 
 	"bxhlint/core"
 	"bxhlint/rules"
@@ -38,6 +39,9 @@ func main() {
 		}
 		dumpModel(p, *dump)
 		return
+	}
+	if *prop == "all" || strings.Contains(*prop, ",") {
+		os.Exit(runMany(*repo, *verif, *prop, *tier, seed, *verbose))
 	}
 	run, ok := rules.Props[*prop]
 	if !ok {
@@ -72,4 +76,52 @@ func main() {
 		return r.Finish()
 	}()
 	os.Exit(code)
+}
+
+// runMany decides several properties on one loaded program (used by the regression drivers under tools/: one load,
+// every rule set). The registered commands of MANIFEST.json decide one property per process.
+func runMany(repo, verif, props, tier string, seed int, verbose bool) int {
+	var ids []string
+	if props == "all" {
+		for k := range rules.Props {
+			ids = append(ids, k)
+		}
+	} else {
+		ids = strings.Split(props, ",")
+	}
+	sort.Strings(ids)
+	p, lerr := core.Load(repo)
+	rc := 0
+	for _, id := range ids {
+		run, ok := rules.Props[id]
+		if !ok {
+			fmt.Printf("unknown property %q\n", id)
+			return 2
+		}
+		r := core.NewReport(id, tier, verif, seed)
+		r.Verbose = verbose
+		code := func() (code int) {
+			defer func() {
+				if e := recover(); e != nil {
+					r.Unknown("E1", "analyser-panic", "", fmt.Sprintf("%v\n%s", e, debug.Stack()))
+					code = r.Finish()
+				}
+			}()
+			if lerr != nil {
+				r.Unknown("E1", "load", "", lerr.Error())
+				return r.Finish()
+			}
+			r.Count("packages", len(p.Pkgs))
+			r.Count("module_functions", len(p.ModuleFuncs(false)))
+			if len(p.Pkgs) < 40 {
+				r.Unknown("E1", "floor:packages", "", fmt.Sprintf("only %d packages loaded", len(p.Pkgs)))
+			}
+			run(&rules.Ctx{P: p, R: r, Tier: tier})
+			return r.Finish()
+		}()
+		if code != 0 {
+			rc = 1
+		}
+	}
+	return rc
 }
